@@ -368,12 +368,19 @@ def cli_run_set(cwd, files, kinds, jobs, fail_fast, keep, rnd, sigint_at=0, late
     args = ["--junit", "out"]
     if jobs:
         args += ["-j", str(jobs)]
-    if fail_fast:
-        args.append("--fail-fast")
-    if keep:
-        args.append("--keep-db-on-failure")
-    args.append("t/*.slt")
     env = {}
+    # either spelling of the two switches: the flag or its environment variable
+    if fail_fast:
+        if rnd.random() < 0.6:
+            args.append("--fail-fast")
+        else:
+            env["SLT_FAIL_FAST"] = "true"
+    if keep:
+        if rnd.random() < 0.6:
+            args.append("--keep-db-on-failure")
+        else:
+            env["SLT_KEEP_DB_ON_FAILURE"] = "true"
+    args.append("t/*.slt")
     if sigint_at:
         env["FAKE_SIGINT_AT"] = str(sigint_at)
     if latency:
